@@ -145,3 +145,59 @@ if __name__ == "__main__":
     for o in obs:
         if not o.ok:
             print("VIOL", o.oid, o.loc, o.detail[:160])
+
+
+def static_ctx_obligations(prog):
+    """R-SCTX — the converse of (ii): an exported function that cannot reach the generator multiplication has no use
+    for a built context, so no built-context ARG_CHECK (GUARDS) may be reachable from it.  The header promises that
+    secp256k1_context_static works for everything that does not sign / derive keys; a stray
+    ARG_CHECK(secp256k1_context_is_proper(ctx)) in a verifier turns every call on the static context into the illegal
+    callback (abort by default)."""
+    g = prog.callgraph()
+    reach = set(TARGETS)
+    changed = True
+    while changed:
+        changed = False
+        for fn, cs in g.items():
+            if fn not in reach and cs & reach:
+                reach.add(fn)
+                changed = True
+    memo = {}
+
+    def guarded_somewhere(fname, depth=0):
+        if fname in memo:
+            return memo[fname]
+        memo[fname] = None
+        f = prog.functions.get(fname)
+        if f is None or not f.blocks or depth > 12:
+            return None
+        gb = _guard_blocks(f)
+        if gb:
+            b = f.blocks[sorted(gb)[0]]
+            memo[fname] = ([fname], b.term["loc"])
+            return memo[fname]
+        for el, c in f.all_calls():
+            cal = callee_name(c)
+            if cal and cal in prog.functions:
+                r = guarded_somewhere(cal, depth + 1)
+                if r:
+                    memo[fname] = ([fname] + r[0], r[1])
+                    return memo[fname]
+        return None
+
+    obs = []
+    for f in sorted(prog.exported(), key=lambda x: x.name):
+        if f.name in reach or f.name in SAFE or not f.blocks:
+            continue
+        if f.name.startswith("secp256k1_context_"):
+            continue        # life-cycle / mutating calls: the static context must not be destroyed, cloned or modified (documented)
+        r = guarded_somewhere(f.name)
+        obs.append(Obligation("R-SCTX", "R-SCTX:%s" % f.name, r[1] if r else f.loc, f.name,
+                              "%s never reaches the generator multiplication, so it must keep working on secp256k1_context_static: "
+                              "no built-context ARG_CHECK may be reachable from it" % f.name, r is None,
+                              "no built-context check in its call tree" if r is None else
+                              "built-context ARG_CHECK at %s (chain %s): every call on the static context now invokes the illegal callback"
+                              % (r[1], " > ".join(r[0]))))
+    if len(obs) < 60:
+        raise AnalysisBroken("R-SCTX: only %d exported functions outside the generator-multiplication cone (floor 60)" % len(obs))
+    return obs, {"static_context_functions": len(obs)}
